@@ -26,7 +26,7 @@ def main(argv=None) -> int:
         seed = int(os.environ.get("VERIF_SEED", "0"))
     except ValueError:
         seed = 0
-    from . import model, report
+    from . import model, refmodels, report
 
     if args.repo:
         model.REPO_ROOT = args.repo
@@ -42,6 +42,7 @@ def main(argv=None) -> int:
         from . import selftest
 
         mod.run(ctx)
+        refmodels.check(ctx)
         if args.tier == "thorough" and hasattr(mod, "run_thorough"):
             mod.run_thorough(ctx)
         if not ctx.obligations:
